@@ -379,7 +379,29 @@ let cmd_params line =
   Buffer.add_string b (if par_translation_ok then "" else " || TRANSLATION-FAILED");
   print_endline (Buffer.contents b)
 
-let commands : (string * (string -> unit)) list ref = ref [ ("params", cmd_params); ("vtk", cmd_vtk); ("population", cmd_population); ("replay", cmd_replay); ("forces", cmd_forces); ("geometry", cmd_geometry); ("valid", cmd_valid); ("cellcycle", cmd_cellcycle); ("kernel", cmd_kernel); ("grid", cmd_grid); ("integrate", cmd_integrate) ]
+(* ---------------------------------------------------------------- C19 output events of solver::run *)
+let cmd_output line =
+  let t = Array.of_list (toks line) in
+  let pos = ref 0 in
+  let next () = let s = t.(!pos) in incr pos; s in
+  let ni () = int_of_string (next ()) in
+  let dt = f_of_s (next ()) in let sp = f_of_s (next ()) in let tend = f_of_s (next ()) in
+  let ids () = let n = ni () in List.init n (fun _ -> int_to_z (ni ())) in
+  let pop0 = ids () in
+  let nh = ni () in
+  let hist = List.init nh (fun _ -> let mid = ids () in let fin = ids () in (mid, fin)) in
+  let b = Buffer.create 1024 in
+  let pids l = Buffer.add_string b (Printf.sprintf " %d" (List.length l)); List.iter (fun z -> Buffer.add_string b (Printf.sprintf " %d" (z_to_int z))) l in
+  (match out_run_f dt sp tend hist (out_init_f pop0) with
+   | None -> Buffer.add_string b "OUT-OF-HISTORY"
+   | Some (sf, ev) ->
+     List.iter (fun e -> match e with
+       | Save (k, p) -> Buffer.add_string b (Printf.sprintf " S %d" (z_to_int k)); pids p
+       | Stats (i, tm, p) -> Buffer.add_string b (Printf.sprintf " R %d %s" (nat_to_int i) (s_of_f tm)); pids p) ev;
+     Buffer.add_string b (Printf.sprintf " END %d %s %d" (nat_to_int sf.s_iter) (s_of_f sf.s_time0) (z_to_int sf.s_file)));
+  print_endline (Buffer.contents b)
+
+let commands : (string * (string -> unit)) list ref = ref [ ("output", cmd_output); ("params", cmd_params); ("vtk", cmd_vtk); ("population", cmd_population); ("replay", cmd_replay); ("forces", cmd_forces); ("geometry", cmd_geometry); ("valid", cmd_valid); ("cellcycle", cmd_cellcycle); ("kernel", cmd_kernel); ("grid", cmd_grid); ("integrate", cmd_integrate) ]
 
 let () =
   let cmd = Sys.argv.(1) in
